@@ -2,6 +2,8 @@ import NixModel.Lemmas.C04Hist
 import NixModel.Lemmas.C04Shape
 import NixModel.Lemmas.StoreWF
 import NixModel.Lemmas.C04Ext
+import NixModel.Lemmas.C04Obj
+import NixModel.Store.C04Copy
 
 /-!
 # C04 — deleting an entity removes it, what it owns and every link to it — nothing else
@@ -674,5 +676,275 @@ example : (resolve demo4 rootLoc [.name "data", .name "b", .name "tags", .name "
     .name "data"]).isSome = true := by decide +kernel
 example : (resolve demo4After rootLoc [.name "data", .name "b", .name "data_arrays", .name "x"]).isSome = true := by
   decide +kernel
+
+/-! ## deletion *by object*: the object handed over is the one deleted — member of that container or not
+
+`Container.__delitem__` (and its section / source / link variants) does not look an entity object up again:
+`del container[obj]` deletes `obj` wherever it lives, refuses an object of another class, and never touches
+an entity of the same name that the receiving container happens to hold. A name, an id or a position can
+only address a member. (Seeded change class C04-7: "resolve the object again by its name in the receiving
+container" deletes the namesake instead.) -/
+
+/-- `del c[obj]` on an owning container, for an object of the container's item class: `delete_all` of
+exactly that object (sections / sources: of its collected subtree) — `c`'s own entries are never consulted -/
+theorem delete_by_object (g : Graph) (c : Cont) (k : Nat)
+    (hown : isOwning c.info.flavour = true) (hk : kindOf g k = c.info.item) :
+    contDel g c (.ent k) = .ok (g.deleteObjs (delKeys g c k)) :=
+  delete_is_deleteObjs g c (.ent k) k hown rfl hk
+
+/-- … so the outcome is the same through *every* container of that class (the list of another block, of
+another parent section / source, the file's top-level list): membership plays no role -/
+theorem delete_by_object_any_container (g : Graph) (c c' : Cont) (k : Nat)
+    (hown : isOwning c.info.flavour = true) (hinfo : c'.info.flavour = c.info.flavour)
+    (hitem : c'.info.item = c.info.item) :
+    contDel g c' (.ent k) = contDel g c (.ent k) := by
+  rw [contDel_eq, contDel_eq]
+  have hd : delKeys g c' k = delKeys g c k := by unfold delKeys; rw [hinfo]
+  simp only [delTarget, hitem, hinfo, hown, hd, ↓reduceIte]
+
+/-- an object of another class is refused (TypeError), whatever the container holds -/
+theorem delete_by_object_wrong_class (g : Graph) (c : Cont) (k : Nat) (hk : kindOf g k ≠ c.info.item) :
+    contDel g c (.ent k) = .error .typeError := by
+  rw [contDel_eq]
+  simp [delTarget, hk]
+
+/-- **the namesake stays**: after `del c[obj]` for a single-object container (blocks, groups, arrays,
+frames, tags, multi-tags, properties, features) every entry of `c` — and of every other group — whose
+target is not `obj` itself is still there, in order, with all its attributes; in particular an entry of
+`c` that carries the same name (or the same id) as `obj` -/
+theorem delete_by_object_others_stay (g g' : Graph) (c : Cont) (k : Nat)
+    (hfl : c.info.flavour = .plain ∨ c.info.flavour = .features)
+    (hdel : contDel g c (.ent k) = .ok g') :
+    (∀ (p : Nat) (l : String × Nat), l ∈ g'.links p ↔ l ∈ g.links p ∧ l.2 ≠ k) ∧
+    (∀ l ∈ contEntries g c, l.2 ≠ k → l ∈ contEntries g' c) ∧
+    (∀ x a, g'.getAttr x a = g.getAttr x a) := by
+  have hown : isOwning c.info.flavour = true := by rcases hfl with h | h <;> rw [h] <;> rfl
+  have hex := delete_exact g g' c (.ent k) k hfl rfl hdel
+  refine ⟨hex, ?_, (delete_frame g g' c (.ent k) k hown rfl hdel).2.2.1⟩
+  intro l hl hne
+  unfold contEntries cLinks at hl ⊢
+  cases hn : c.node with
+  | none => simp [hn] at hl
+  | some cn => rw [hn] at hl; exact (hex cn l).mpr ⟨hl, hne⟩
+
+/-- the same for section / source containers: every link whose target does not lie in the subtree of
+`obj` stays — the receiving container's namesake of `obj` with its whole subtree, for one -/
+theorem delete_by_object_subtree_others_stay (g g' : Graph) (c : Cont) (k : Nat)
+    (hown : isOwning c.info.flavour = true) (hdel : contDel g c (.ent k) = .ok g') :
+    (∀ (p : Nat) (l : String × Nat), l ∈ g.links p → ¬ InSub g c k l.2 → l ∈ g'.links p) ∧
+    (∀ (p : Nat) (l : String × Nat), l ∈ g'.links p → l.2 ≠ k) ∧
+    (∀ x a, g'.getAttr x a = g.getAttr x a) :=
+  ⟨(delete_frame g g' c (.ent k) k hown rfl hdel).1,
+   (delete_gone g g' c (.ent k) k hown rfl hdel k (delete_keys_self g c k)).2.2.2,
+   (delete_frame g g' c (.ent k) k hown rfl hdel).2.2.1⟩
+
+/-- a name, an id or a position addresses a **member** of the container (only an object can come from
+elsewhere) -/
+theorem delete_by_key_member (g : Graph) (c : Cont) (key : Key) (k : Nat)
+    (hkey : ∀ x, key ≠ .ent x) (ht : delTarget g c key = .ok k) : ∃ l ∈ contEntries g c, l.2 = k :=
+  delTarget_member g c key k hkey ht
+
+/-- by a name (a text not of UUID form) a block / section / source container deletes the member linked
+under exactly that name — an entity of the same name in another parent is not even looked at -/
+theorem delete_by_name_member (g : Graph) (c : Cont) (x : String) (k : Nat)
+    (hf : hasByObject c.info.flavour = true) (hx : isUuid x = false)
+    (ht : delTarget g c (.str x) = .ok k) : (x, k) ∈ contEntries g c :=
+  delTarget_name g c x k hf hx ht
+
+/-- **`obj in container` after the deletion**: no block / section / source container of the file answers
+`True` for a deleted object (the membership test of these containers is by object, `Container.__contains__`) -/
+theorem delete_gone_contains (g g' : Graph) (c : Cont) (key : Key) (k : Nat)
+    (hown : isOwning c.info.flavour = true) (ht : delTarget g c key = .ok k)
+    (hdel : contDel g c key = .ok g') (d : Nat) (hin : d ∈ delKeys g c k)
+    (c' : Cont) (hf : hasByObject c'.info.flavour = true) : contHas g' c' (.ent d) ≠ .ok true := by
+  intro h
+  obtain ⟨l, hl, hld⟩ := contHas_ent_mem g' c' d hf h
+  exact (delete_gone g g' c key k hown ht hdel d hin).2.1 c' l hl hld
+
+/-- `del link_list[obj]` (group / tag / multi-tag / source lists): the entry is looked up by the object's
+**id** in that list's own group, and `H5Group.delete` removes that one link -/
+theorem unlink_by_object (g : Graph) (c : Cont) (k cn : Nat) (i : String)
+    (hlink : isOwning c.info.flavour = false) (hk : kindOf g k = c.info.item)
+    (hcn : c.node = some cn) (hi : g.entityId k = some i) :
+    contDel g c (.ent k) = h5Delete g cn c.owner.key c.cname (c.owner.depth + 1) i true := by
+  rw [contDel_eq]
+  simp [delTarget, hk, hlink, hcn, hi]
+
+/-- … and an object that the list does not link (no entry under its id, none carrying its id) is refused:
+nothing is removed, neither here nor where the object lives -/
+theorem unlink_by_object_not_linked (g : Graph) (c : Cont) (k : Nat)
+    (hlink : isOwning c.info.flavour = false)
+    (hno : ∀ cn i, c.node = some cn → g.entityId k = some i →
+      ∀ l ∈ g.links cn, l.1 ≠ i ∧ g.entityId l.2 ≠ some i) :
+    ∃ e, contDel g c (.ent k) = .error e := by
+  rw [contDel_eq]
+  simp only [delTarget]
+  split
+  · exact ⟨_, rfl⟩
+  · simp only [hlink, Bool.false_eq_true, ↓reduceIte]
+    split
+    · rename_i cn i hcn hi
+      have hn := hno cn i hcn hi
+      have hbyname : getByName g (some cn) i = none := by
+        unfold getByName cLinks
+        rw [List.find?_eq_none]
+        intro l hl
+        simpa using (hn l hl).1
+      have hbyid : getById g (some cn) i = none := by
+        unfold getById cLinks
+        rw [List.find?_eq_none]
+        intro l hl
+        simpa using (hn l hl).2
+      have hchild : g.hasChild cn i = false := by
+        unfold Graph.hasChild Graph.child?
+        have : (g.links cn).find? (fun l => l.1 == i) = none := by
+          rw [List.find?_eq_none]
+          intro l hl
+          simpa using (hn l hl).1
+        rw [this]; rfl
+      unfold h5Delete
+      by_cases hu : isUuid i = true
+      · simp only [hu, ↓reduceIte]
+        unfold getByIdOrName
+        simp only [hu, ↓reduceIte, hbyid, hbyname]
+        exact ⟨_, rfl⟩
+      · simp only [hu, Bool.false_eq_true, ↓reduceIte, hchild, Bool.not_false]
+        exact ⟨_, rfl⟩
+    · exact ⟨_, rfl⟩
+
+/-! non-vacuity: names reused in different parents; objects handed to containers that do not hold them -/
+
+/-- two blocks with an array `lfp` each, both linked from a group of their block; a root section `subject`
+and a section `subject` below `session`, each the metadata of one array -/
+def demo7Ops : List Op :=
+  [.createBlock "day1" "t", .createBlock "day2" "t",
+   .createIn [.name "data", .name "day1"] "data_array" "lfp" "t" none,
+   .createIn [.name "data", .name "day2"] "data_array" "lfp" "t" none,
+   .createIn [.name "data", .name "day1"] "group" "g" "t" none,
+   .createIn [.name "data", .name "day2"] "group" "g" "t" none,
+   .append [.name "data", .name "day1", .name "groups", .name "g"] "data_arrays"
+     (.obj [.name "data", .name "day1", .name "data_arrays", .name "lfp"]),
+   .append [.name "data", .name "day2", .name "groups", .name "g"] "data_arrays"
+     (.obj [.name "data", .name "day2", .name "data_arrays", .name "lfp"]),
+   .createSection [] "subject" "t", .createSection [] "session" "t",
+   .createSection [.name "metadata", .name "session"] "subject" "t",
+   .setRole [.name "data", .name "day1", .name "data_arrays", .name "lfp"] "metadata"
+     (some [.name "metadata", .name "subject"]),
+   .setRole [.name "data", .name "day2", .name "data_arrays", .name "lfp"] "metadata"
+     (some [.name "metadata", .name "session", .name "sections", .name "subject"])]
+
+def demo7 : Graph := run init demo7Ops
+/-- `del day2.data_arrays[day1_lfp]` -/
+def demo7A : Graph :=
+  step demo7 (.del [.name "data", .name "day2"] "data_arrays" (.obj [.name "data", .name "day1", .name "data_arrays", .name "lfp"]))
+/-- `del file.sections[nested_subject]` -/
+def demo7B : Graph :=
+  step demo7 (.del [] "metadata" (.obj [.name "metadata", .name "session", .name "sections", .name "subject"]))
+
+def has7 (g : Graph) (p : Path) : Bool := (resolve g rootLoc p).isSome
+
+/-- the array handed over is gone from its own block and its group; its namesake in the receiving block
+keeps its place, its group entry and its metadata -/
+example : (has7 demo7 [.name "data", .name "day1", .name "data_arrays", .name "lfp"],
+           has7 demo7A [.name "data", .name "day1", .name "data_arrays", .name "lfp"],
+           has7 demo7A [.name "data", .name "day1", .name "groups", .name "g", .name "data_arrays", .idx 0],
+           has7 demo7A [.name "data", .name "day2", .name "data_arrays", .name "lfp"],
+           has7 demo7A [.name "data", .name "day2", .name "groups", .name "g", .name "data_arrays", .idx 0],
+           has7 demo7A [.name "data", .name "day2", .name "data_arrays", .name "lfp", .name "metadata"])
+    = (true, false, false, true, true, true) := by decide +kernel
+/-- the nested section handed to the file's list is gone together with the metadata link to it; the root
+section of the same name and the link to it stay -/
+example : (has7 demo7B [.name "metadata", .name "session", .name "sections", .name "subject"],
+           has7 demo7B [.name "data", .name "day2", .name "data_arrays", .name "lfp", .name "metadata"],
+           has7 demo7B [.name "metadata", .name "subject"],
+           has7 demo7B [.name "data", .name "day1", .name "data_arrays", .name "lfp", .name "metadata"],
+           has7 demo7B [.name "metadata", .name "session"])
+    = (false, false, true, true, true) := by decide +kernel
+/-- an array handed to a link list that does not link it is refused: the file is unchanged -/
+example : step demo7 (.del [.name "data", .name "day2", .name "groups", .name "g"] "data_arrays"
+    (.obj [.name "data", .name "day1", .name "data_arrays", .name "lfp"])) = demo7 := by decide +kernel
+/-- a section handed to an array list is refused -/
+example : step demo7 (.del [.name "data", .name "day2"] "data_arrays" (.obj [.name "metadata", .name "subject"])) = demo7 := by
+  decide +kernel
+
+/-! ## every history of the correspondence's language (`Op5`: `Op4` plus copies within the file)
+
+After an id-keeping copy two objects carry one id — and, copied into another parent without a new name, one
+name. The theorems above need nothing about the graph, so they hold after every such history. -/
+
+/-- one `del` after any `Op5` history: refused and nothing changed, or the entity is gone from every link
+list and unreachable; and every link to any other object — an id-keeping copy of the entity included — stays,
+all lists keep their order, all attributes stay -/
+theorem history5_delete (ops : List Op5) (owner : Path) (cname : String) (key : KeyArg)
+    (c : Cont) (kk : Key) (k : Nat) :
+    let g := run5 init ops
+    let g' := step5 g (Op5.del owner cname key)
+    openCont g owner cname = some c → resolveKeyArg g key = some kk →
+    isOwning c.info.flavour = true → delTarget g c kk = .ok k →
+    g' = g ∨
+      ((∀ (p : Nat) (l : String × Nat), l ∈ g'.links p → l.2 ≠ k) ∧
+       (k ≠ 0 → ¬ Reach g' k) ∧
+       (∀ (p : Nat) (l : String × Nat), l ∈ g.links p → ¬ InSub g c k l.2 → l ∈ g'.links p) ∧
+       (∀ p, (g'.links p).Sublist (g.links p)) ∧
+       (∀ x a, g'.getAttr x a = g.getAttr x a)) := by
+  intro g g' hc hkk hown ht
+  have hstep : g' = match contDel g c kk with | .ok x => x | .error _ => g := by
+    show step g (.del owner cname key) = _
+    unfold step apply
+    simp only [hc, hkk]
+    cases contDel g c kk <;> rfl
+  cases hdel : contDel g c kk with
+  | error e => left; rw [hstep, hdel]
+  | ok x =>
+    right
+    have hx : g' = x := by rw [hstep, hdel]
+    have hgone := delete_step_gone g owner cname key c kk k hc hkk hown ht
+    have hfr := delete_frame g x c kk k hown ht hdel
+    rcases hgone with hsame | ⟨h1, h2⟩
+    · -- the step changed nothing although the call succeeded: then `x = g`, and the frame is trivial
+      have hxg : x = g := by rw [← hx]; exact hsame
+      rw [hx]
+      refine ⟨(delete_gone g x c kk k hown ht hdel k (delete_keys_self g c k)).2.2.2, ?_, hfr.1, hfr.2.1, hfr.2.2.1⟩
+      intro hk0
+      apply delete_owned_unreachable g x c kk k hown ht hdel k
+      intro ks hp
+      cases hp with
+      | nil => exact absurd rfl hk0
+      | cons name hl hrest =>
+        refine ⟨k, path_end_mem (.cons name hl hrest) (by simp), ?_⟩
+        unfold doomed; simpa using delete_keys_self g c k
+    · rw [hx]
+      have e : step g (.del owner cname key) = x := hx
+      rw [e] at h1 h2
+      exact ⟨h1, h2, hfr.1, hfr.2.1, hfr.2.2.1⟩
+
+/-- … and for the single-object containers the link lists afterwards are exactly the old ones without the
+links to the deleted object (`Op4` and `Op5` histories alike) -/
+theorem history5_delete_exact (ops : List Op5) (g' : Graph) (c : Cont) (key : Key) (k : Nat)
+    (hfl : c.info.flavour = .plain ∨ c.info.flavour = .features) (ht : delTarget (run5 init ops) c key = .ok k)
+    (hdel : contDel (run5 init ops) c key = .ok g')
+    (p : Nat) (l : String × Nat) : l ∈ g'.links p ↔ l ∈ (run5 init ops).links p ∧ l.2 ≠ k :=
+  delete_exact (run5 init ops) g' c key k hfl ht hdel p l
+
+/-- non-vacuity: an id-keeping copy of `day1/lfp` into `day2` under the name `lfp2`, the copy linked from
+`day2`'s group; then the *original* is handed to `day2`'s list: the original goes, the copy (same id) stays
+with its group entry -/
+def demo8 : Graph :=
+  run5 init (demo7Ops.map (fun o => Op5.base (.base o)) ++
+    [.copyInto [.name "data", .name "day2"] "data_array" [.name "data", .name "day1", .name "data_arrays", .name "lfp"] "lfp2" true,
+     .base (.base (.append [.name "data", .name "day2", .name "groups", .name "g"] "data_arrays"
+       (.obj [.name "data", .name "day2", .name "data_arrays", .name "lfp2"])))])
+def demo8After : Graph :=
+  step5 demo8 (Op5.del [.name "data", .name "day2"] "data_arrays" (.obj [.name "data", .name "day1", .name "data_arrays", .name "lfp"]))
+
+example : ((resolve demo8 rootLoc [.name "data", .name "day1", .name "data_arrays", .name "lfp"]).bind fun l => demo8.entityId l.key)
+    = ((resolve demo8 rootLoc [.name "data", .name "day2", .name "data_arrays", .name "lfp2"]).bind fun l => demo8.entityId l.key) := by
+  decide +kernel
+example : (has7 demo8 [.name "data", .name "day2", .name "data_arrays", .name "lfp2"],
+           has7 demo8After [.name "data", .name "day1", .name "data_arrays", .name "lfp"],
+           has7 demo8After [.name "data", .name "day2", .name "data_arrays", .name "lfp2"],
+           has7 demo8After [.name "data", .name "day2", .name "groups", .name "g", .name "data_arrays", .idx 1],
+           has7 demo8After [.name "data", .name "day2", .name "data_arrays", .name "lfp"])
+    = (true, false, true, true, true) := by decide +kernel
 
 end Nix.C04
